@@ -163,6 +163,10 @@ def derive_cases(tier):
     for iss in ('ecdsa521', 'ecdsa384', 'ecdsa224'):
         for it in range(nonces * 3):
             yield {'f': 'derive', 'kn': 'ident1-id0', 'iid': 'str', 'subj': 'ec256_1', 'iss': iss, 'start': STARTS[6], 'dur': 3600, 'it': it}
+    # R: one signer object issuing two certificates, its (public) key_locator_name attribute reassigned in between
+    for iss in ISSUERS:
+        for subj in ('ec256_1', 'rsa2048_1'):
+            yield {'f': 'derive', 'kn': 'ident1-id1', 'iid': 'str', 'subj': subj, 'iss': iss, 'start': STARTS[3], 'dur': 3600, 'it': 0, 'reuse': True}
     # D: self_sign / sign_req under an owned clock
     for now in ('2024-02-29T12:00:00+00:00', '1999-12-31T23:59:59+00:00', '2000-01-01T00:00:00+00:00', '2027-12-31T23:59:59+00:00'):
         for subj, iss in (('ec256_1', 'ecdsa'), ('rsa2048_1', 'rsa'), ('ed25519_1', 'ed')):
@@ -190,6 +194,10 @@ def run_case(case):
     ndn_utils.time = T
     try:
         with owned_random(('c16', case['it'], case.get('pad'), case['subj'])):
+            if case.get('reuse'):
+                signer.key_locator_name = '/earlier/use/KEY/%09'
+                sv2.derive_cert(list(names['ident1-id0']), 'first', pub, signer, dt.datetime(2020, 1, 1), 60)
+                signer.key_locator_name = loc
             if case['f'] == 'derive':
                 ids = dict(ISSUER_IDS)
                 iid = ids[case['iid']]
